@@ -309,7 +309,7 @@ def task_wide(t):
         rens.append({names[0]: ex[0], names[2]: ex[-1]})
         G = [U.var(ex[0]), U.var(names[1]) & U.var(ex[-1]), U.full ^ U.var(names[2])]
         for fu in U.all_functions(names):
-            if focus is not None and [list(lv), fu] != list(focus):
+            if focus is not None and sweep.norm([lv, fu]) != sweep.norm(focus):
                 continue
             case0 = dict(task=t[:-1] + ([list(lv), fu],), levels=list(lv), u=U.fmt(fu))
             try:
